@@ -165,7 +165,9 @@ func (ctx *context) ResolveAndCompile(pathname string, opts py.CompileOpts) (py.
 		}
 
 		ext := strings.ToLower(filepath.Ext(fpath))
-		if ext == "" && os.IsNotExist(err) {
+		if ext == "" && (err == nil || os.IsNotExist(err)) {
+			// A name without extension stands for its .py file,
+			// whether or not a file of that very name exists
 			fpath += ".py"
 			ext = ".py"
 			_, err = os.Stat(fpath)
@@ -205,6 +207,9 @@ func (ctx *context) ResolveAndCompile(pathname string, opts py.CompileOpts) (py.
 			}
 			out.Code, _ = codeObj.(*py.Code)
 			out.PycPathname = fpath
+		default:
+			// Not python source nor compiled python: keep searching
+			return true, nil
 		}
 
 		out.FileDesc = fpath
